@@ -11,7 +11,7 @@ from .chrun import Cond, run_conditions, to_obligations, concrete_reach
 
 HEAD = '''# generated harness module (E1, prophyc units) -- no message-formatting stub: str(int) is semantic in the parser
 from vf import pyharness as H, exprharness as X, compharness as K
-H.setup(formatting_stub=False)
+H.setup(formatting_stub=False, int_str=True)
 X.parser()
 TABLE = %(table)r
 
@@ -29,7 +29,7 @@ def explain(fn, args, kwargs):
 
 '''
 
-TOTAL_EXPRS = ['A + B', 'A - B', 'A * 3', 'A / B', 'A / 2', 'A << B', 'A >> B', 'A << 3', 'A >> 2', '-A', 'A / (B - B)', '1 << A', '8 >> A',
+TOTAL_EXPRS = ['A + B', 'A - B', 'A * 3', 'A / B', 'A / 2', 'A << B', 'A >> B', 'A << 3', 'A >> 2', '-A', 'A / (B - B)', '1 << B', '8 >> B',
                '(A + B) / C', 'A + 1 << 2', 'A / 0', '-A / 3', 'A * 2 / B']
 
 
@@ -53,7 +53,7 @@ def run(tier):
                                fuel='4*n*n+8 dependency queries'), sample_args=[False] * (n * n)))
     # 2. expression actions total
     for idx, (e, pos) in enumerate(tab):
-        body.append('def tot__%d(a: int, b: int, c: int) -> bool:\n    """\n    pre: -2**33 <= a <= 2**33 and -70 <= b <= 70 and -2**33 <= c <= 2**33\n'
+        body.append('def tot__%d(a: int, b: int, c: int) -> bool:\n    """\n    pre: -2**33 <= a <= 2**33 and -3 <= b <= 5 and -2**33 <= c <= 2**33\n'
                     '    post: _\n    """\n    return X.check_total(TABLE[%d][0], a, b, c, TABLE[%d][1])\n\n' % (idx, idx, idx))
         conds.append(Cond(path, 'tot__%d' % idx, 'expr-total/%s/%s' % (pos, e.replace(' ', '')),
                           dict(check='expression actions total', expression=e, position=pos,
